@@ -60,6 +60,9 @@ def case_closed(case):
     modes = sl.resolve_modes(case["modes"], nx, ny, dom, case["halo"])
     sl.pollute(*sl.padded_size(nx, ny, dom, case["halo"])[:2], dx, dy)
     mp = {"zero": (0.0, 0.0), "grid": (3 * dx, 2 * dy), "off": (13.0, 22.0)}[case["mp"]]
+    mp_values = mp
+    if case["mp"] != "zero" and (nx + len(case["prof"])) % 2 == 0:
+        mp = np.array(mp, dtype=float)  # a row of the caller's tower table: the same array object goes into every call below
     fp = case["footprint"]
     lv = case["levels"]
     lvl = [lv] if np.ndim(lv) == 0 else list(lv)
@@ -74,7 +77,10 @@ def case_closed(case):
         _, c, f = S0(buf, z, prof, dom, lv, modes=modes, halo=case["halo"], meas_pt=mp, footprint=fp, analytic=True, precision="double", srf_bg_conc=bg)
         n += 1
         c, f = sl.as3d(c, len(lvl)), sl.as3d(f, len(lvl))
-        cw, fw = halfspace.solve(q, dom, z[lvl] - z[0], pv, modes, case["halo"], meas_pt=mp, bg=bg, footprint=fp)
+        if tuple(float(t) for t in mp) != tuple(mp_values):
+            v.append({"sub": "argument-modified", "sig": "argument-modified/meas_pt", "msg": "the solver changed the caller's meas_pt array from %r to %r; config %s" % (mp_values, tuple(mp), core.canon(case))})
+            break
+        cw, fw = halfspace.solve(q, dom, z[lvl] - z[0], pv, modes, case["halo"], meas_pt=mp_values, bg=bg, footprint=fp)
         for nm, a, b in (("conc", c, cw), ("flux", f, fw)):
             e = sl.relerr(a, b, max(np.abs(b).max(), abs(bg) if nm == "conc" else 0, 1e-300))
             worst = max(worst, e)
